@@ -481,7 +481,7 @@ func (c *connsPair) isSrcOrDstPeerIPType(checkSrc bool) bool {
 }
 
 func isIngressControllerPeer(peer eval.Peer) bool {
-	return peer.Name() == common.IngressPodName
+	return peer.String() == common.IngressPodString
 }
 
 // updateNewOrLostFields updates ConnsPair's newOrLostSrc and newOrLostDst values
